@@ -75,7 +75,7 @@ def ksets(tier, checks=(1, 2, 3, 4, 5)):
         for na, nb in ((0, 2), (2, 0), (1, 1), (2, 1), (1, 2), (2, 2), (3, 1), (1, 3), (3, 2), (2, 3), (3, 3)):
             add(1, 2, na, nb, 2)
             if na > 0: add(4, 2, na, nb, 2)
-            if na + nb <= 4: add(2, 2, na, nb, 2, mem=16, slots=4)
+            if na + nb <= 3 or (na, nb) == (2, 2): add(2, 2, na, nb, 2, mem=16, slots=4)   # the set difference grows its result with push_back: 3x1 / 1x3 exceed the memory cap in the witness twin
         for na in (1, 2, 3, 4): add(3, 2, na, 1, 2); add(5, 2, na, 1, 2 if na < 4 else 1)
         for c in (1, 4): add(c, 1, 4, 4, 8); add(c, 3, 2, 2, 1)
         add(2, 1, 2, 2, 4, mem=16, slots=4); add(3, 1, 5, 1, 6); add(3, 3, 3, 1, 1); add(5, 1, 4, 1, 3)
